@@ -17,13 +17,13 @@ open Sqf Sqf.VM
 /-- `if c then {A}`: the block runs iff the condition is true; otherwise the construct yields nil -/
 theorem C02_then_code (b : Bool) (c : List Instr) (m : M) :
     bop_then (.ifv b) (.code c) m =
-      if b then some (m, [.pushFrame (mkFrame c)], .nil) else some (m, [], .nil) := by
+      if b then some (m, [.pushFrame { mkFrame c with globals := curNs m }], .nil) else some (m, [], .nil) := by
   simp [bop_then, frame', pure']
 
 /-- `if c then {A} else {B}`: exactly one of the two blocks runs, chosen by the condition -/
 theorem C02_then_else (b : Bool) (id : Nat) (c0 c1 : List Instr) (m : M) (h : m.arr id = [.code c0, .code c1]) :
     bop_then (.ifv b) (.ref id) m =
-      some (m, [.pushFrame (mkFrame (if b then c0 else c1))], .nil) := by
+      some (m, [.pushFrame { mkFrame (if b then c0 else c1) with globals := curNs m }], .nil) := by
   cases b <;> simp [bop_then, h, nth, frame', pure']
 
 /-- `else` just pairs the two blocks -/
@@ -35,13 +35,13 @@ theorem C02_else_pairs (c0 c1 : List Instr) (m : M) :
 /-- lazy `&&`: the right side is evaluated only when the left side is true -/
 theorem C02_lazy_and (a : Bool) (c : List Instr) (m : M) :
     bop__26_26 (.bool a) (.code c) m =
-      if a then some (m, [.pushFrame (mkFrame c)], .nil) else some (m, [], .bool false) := by
+      if a then some (m, [.pushFrame { mkFrame c with globals := curNs m }], .nil) else some (m, [], .bool false) := by
   simp [bop__26_26, frame', pure']
 
 /-- lazy `||`: the right side is evaluated only when the left side is false -/
 theorem C02_lazy_or (a : Bool) (c : List Instr) (m : M) :
     bop__7c_7c (.bool a) (.code c) m =
-      if a then some (m, [], .bool true) else some (m, [.pushFrame (mkFrame c)], .nil) := by
+      if a then some (m, [], .bool true) else some (m, [.pushFrame { mkFrame c with globals := curNs m }], .nil) := by
   simp [bop__7c_7c, frame', pure']
 
 /-! ## while -/
@@ -190,7 +190,7 @@ theorem C02_switch_match (v : Val) (tgt c : List Instr) (sv : Val) (m : M) (f : 
 /-- `if c exitWith {B}`: the current scope is finished (its exit behaviour will not run) and B runs -/
 theorem C02_exitWith (b : Bool) (c : List Instr) (m : M) (f : Frame) (htop : m.top? = some f) :
     bop_exitwith (.ifv b) (.code c) m =
-      if b then some (m, [.setTop { f with pc := f.code.length + 1, die := true }, .pushFrame (mkFrame c)], .nil)
+      if b then some (m, [.setTop { f with pc := f.code.length + 1, die := true }, .pushFrame { mkFrame c with globals := f.globals }], .nil)
       else some (m, [], .nil) := by
   cases b <;> simp [bop_exitwith, htop, pure']
 
